@@ -811,6 +811,133 @@ Section Lines.
   Qed.
 End Lines.
 
+(* ---- per-channel refinement of the attenuation read-back ---- *)
+
+(* an executed `A` line addressed to board i changes entry 5+ch of that board only if its second
+   parameter is the integer ch *)
+Lemma ifd_exec_att_chan e d m d' o i brd brd' ch :
+  ifd_exec e d m = (d', o) -> ifd_target e m = Some (IfA, i) ->
+  get_board d i = Some brd -> get_board d' i = Some brd' -> 0 <= ch ->
+  nth_error (ifd_params_of e m) 1 <> Some (NInt ch) ->
+  nth_error (b_att brd') (Z.to_nat ch) = nth_error (b_att brd) (Z.to_nat ch).
+Proof.
+  intros H Ht Hg Hg' Hch Hn. unfold ifd_exec in H.
+  unfold ifd_target, ifd_params_of, ifd_parsed in *.
+  assert (Hsame : d' = d -> nth_error (b_att brd') (Z.to_nat ch) = nth_error (b_att brd) (Z.to_nat ch)).
+  { intros ->. rewrite Hg in Hg'. injection Hg' as <-. reflexivity. }
+  destruct (Z.of_nat (length m) <? 3); [injection H as <- _; auto|].
+  destruct (ifd_tokens m) as [|a0 [|a1 rest]]; try (injection H as <- _; auto; fail).
+  destruct (ifd_lookup a0) as [c|]; [|discriminate].
+  destruct (ifd_params e (a1 :: rest)) as [ps| |]; try discriminate.
+  destruct ps as [|p0 ps]; [discriminate|].
+  destruct (num_int p0) as [i0|] eqn:Ei; [|discriminate]. injection Ht as -> ->.
+  unfold ifd_dispatch in H. rewrite Ei in H.
+  destruct (num_in_range ifd_nboards p0); cbn [negb] in H; [|injection H as <- _; auto].
+  rewrite Hg in H. cbn [ifd_handle] in H. unfold ifd_set_att in H.
+  destruct ps as [|chn [|v [|x r]]]; try (injection H as <- _; auto; fail).
+  destruct (num_in_range 4 chn) eqn:Er; cbn [negb] in H; [|injection H as <- _; auto].
+  destruct (num_neg v || num_gt_max v); [injection H as <- _; auto|].
+  destruct (b_type brd =? 5); cbn [negb] in H; [|injection H as <- _; auto].
+  destruct chn as [cc|f]; [|injection H as <- _; auto].
+  destruct (set_nth (Z.to_nat cc) (num_x2 v) (b_att brd)) as [a|] eqn:Ea; [|injection H as <- _; auto].
+  unfold ifd_store in H. destruct (put_board d i (with_att brd a)) as [d1|] eqn:Hp; [|injection H as <- _; auto].
+  injection H as <- _. rewrite (get_put_same _ _ _ _ Hp) in Hg'. injection Hg' as <-. cbn [b_att with_att].
+  unfold num_in_range in Er. cbn [num_int] in Er. cbn [nth_error] in Hn.
+  eapply set_nth_neq; eauto. intros E. apply Hn. f_equal. f_equal. lia.
+Qed.
+
+Section AttChannel.
+  Variable e : env.
+
+  (* the step is an acknowledged `A` write to channel ch of board j *)
+  Definition ifd_writes_att (j ch : Z) (s : ifd_state) (b : Z) : Prop :=
+    ifd_writes e IfA j s b /\
+    exists m, ifd_executed s b = Some m /\ nth_error (ifd_params_of e m) 1 = Some (NInt ch).
+
+  Lemma chan_param_dec (ps : list num) ch :
+    nth_error ps 1 = Some (NInt ch) \/ nth_error ps 1 <> Some (NInt ch).
+  Proof.
+    destruct (nth_error ps 1) as [[z|f]|]; try (right; discriminate).
+    destruct (Z.eq_dec z ch) as [->|Hne]; [left; reflexivity|right; congruence].
+  Qed.
+
+  Lemma ifd_quiet_att_chan j ch h : forall s brd,
+    ifd_sinv s -> 0 <= ch -> get_board (dev s) j = Some brd ->
+    ifd_quiet e (ifd_writes_att j ch) s h ->
+    exists brd2, get_board (dev (fst (ifd_run e s h))) j = Some brd2 /\
+                 nth_error (b_att brd2) (Z.to_nat ch) = nth_error (b_att brd) (Z.to_nat ch).
+  Proof.
+    induction h as [|b r IH]; intros s brd Hs Hch Hg Hq.
+    - exists brd. auto.
+    - destruct Hq as [Hq1 Hq2].
+      pose proof (ifd_step_sinv e s b Hs) as Hs1.
+      assert (Hstep : exists brd1, get_board (dev (fst (ifd_step e s b))) j = Some brd1 /\
+                nth_error (b_att brd1) (Z.to_nat ch) = nth_error (b_att brd) (Z.to_nat ch)).
+      { destruct (ifd_step_board e s b j) as [Heq|(c & b0 & b1 & Hw & Hg0 & Hg1 & Hu)].
+        - exists brd. rewrite Heq. auto.
+        - exists b1. split; [exact Hg1|]. rewrite Hg in Hg0. injection Hg0 as <-.
+          assert (Hok : board_ok j brd) by (apply (proj2 (proj2 Hs)); exact Hg).
+          destruct (cmd_in_dec c [IfA]) as [[<-|[]]|Hnin].
+          + destruct (ifd_step_cases e s b) as [(Hn & _)|(m & Hm & He)].
+            { destruct Hw as [_ (m' & Hm' & _)]. congruence. }
+            pose proof Hw as [_ (m' & Hm' & Ht)]. rewrite Hm in Hm'. injection Hm' as <-.
+            destruct (chan_param_dec (ifd_params_of e m) ch) as [Hp|Hp].
+            * exfalso. apply Hq1. split; [exact Hw|]. exists m. auto.
+            * eapply ifd_exec_att_chan; eauto.
+          + assert (Hf : reg_att b1 = reg_att brd).
+            { apply (board_upd_frame _ _ _ _ _ Hok Hu). intros ->. apply Hnin. left. reflexivity. }
+            unfold reg_att in Hf. rewrite Hf. reflexivity. }
+      destruct Hstep as (brd1 & Hg1 & Hf1).
+      destruct (IH _ brd1 Hs1 Hch Hg1 Hq2) as (brd2 & Hg2 & Hf2).
+      exists brd2. split; [|congruence].
+      unfold ifd_run in *. cbn [srun]. unfold ifd_step in *.
+      destruct (sstep (fstep ifd_fcfg) (ifd_exec e) s b) as [s1 o]. cbn [fst] in *.
+      destruct (srun (fstep ifd_fcfg) (ifd_exec e) s1 r) as [s2 os]. exact Hg2.
+  Qed.
+
+  (* C05, attenuation, per channel: the read-back of channel ch of board i holds until the next
+     acknowledged `A i ch _` (writes to the other channels of the board do not matter) *)
+  Theorem ifd_att_readback_chan s i ch v t :
+    ifd_reachable e s -> sidle s = true -> 5 <= i < 21 -> 0 <= ch < 4 -> 0 <= v < 32 ->
+    ifd_is_tail t = true ->
+    let s1 := fst (ifd_run e s (ifd_line_att i ch v ++ [t])) in
+    snd (ifd_run e s (ifd_line_att i ch v ++ [t])) =
+      repeat OTrue (length (ifd_line_att i ch v)) ++ [OReply ifd_ack] /\
+    forall h t', ifd_quiet e (ifd_writes_att i ch) s1 h -> sidle (fst (ifd_run e s1 h)) = true ->
+      ifd_is_tail t' = true ->
+      exists brd, nth_error (b_att brd) (Z.to_nat ch) = Some (2 * v) /\ board_ok i brd /\
+        snd (ifd_run e (fst (ifd_run e s1 h)) (ifd_line_status i ++ [t'])) =
+        repeat OTrue (length (ifd_line_status i)) ++ [OReply (ifd_status_reply brd)].
+  Proof.
+    intros Hr Hidle Hi Hc Hv Ht. apply ifd_reachable_sinv in Hr.
+    pose proof (ifd_run_sinv e (ifd_line_att i ch v ++ [t]) s Hr) as Hs1.
+    destruct Hr as [Hb Hinv].
+    destruct (inv_get_board (dev s) i Hinv ltac:(lia)) as (brd & Hg & Hok).
+    rewrite (ifd_run_line e s _ t IfA [i; ch; v] Hidle (ifd_att_lines e i ch v ltac:(lia) Hc Hv) Ht) in *.
+    cbn [map] in *. rewrite (ifd_dispatch_int IfA _ i _ brd ltac:(lia) Hg) in *.
+    cbn [ifd_handle ifd_set_att] in *.
+    unfold num_in_range in *. cbn [num_int num_neg num_gt_max num_x2] in *.
+    replace ((0 <=? ch) && (ch <? 4)) with true in * by lia.
+    replace ((v <? 0) || (31 <? v)) with false in * by lia.
+    pose proof Hok as (H0 & H1 & H2 & H3 & H4).
+    replace (b_type brd =? 5) with true in * by (rewrite H2; unfold ifd_type;
+      repeat match goal with |- context [i =? ?k] => replace (i =? k) with false by lia end; reflexivity).
+    cbn [negb] in *.
+    destruct (set_nth_some (Z.to_nat ch) (2 * v) (b_att brd)) as [a Ha]; [lia|].
+    rewrite Ha in *. unfold ifd_store in *.
+    destruct (put_board_some (dev s) i brd (with_att brd a) Hg) as [d1 Hp]. rewrite Hp in *.
+    cbn [fst snd] in *. split; [reflexivity|].
+    intros h t' Hq Hi' Ht'.
+    destruct (ifd_quiet_att_chan i ch h _ (with_att brd a) Hs1 ltac:(lia) (get_put_same _ _ _ _ Hp) Hq)
+      as (brd2 & Hg2 & Hf2).
+    pose proof (ifd_run_sinv e h _ Hs1) as Hs2.
+    destruct (ifd_status_from_idle e _ i t' Hs2 Hi' ltac:(lia) Ht') as (brd3 & Hg3 & Hok3 & Hrun).
+    rewrite Hg2 in Hg3. injection Hg3 as <-.
+    exists brd2. split; [|split; [exact Hok3|rewrite Hrun; reflexivity]].
+    rewrite Hf2. cbn [b_att with_att]. eapply set_nth_eq; eauto.
+  Qed.
+End AttChannel.
+
 (* ---- the two known findings, as refuted full statements (witnesses by computation) ---- *)
 Definition fl_03 : fl :=       (* float('0.3') *)
   {| fl_int := None; fl_neg := false; fl_gt := false; fl_x2 := 0; fl_str := [48; 46; 51] |}.
